@@ -26,11 +26,20 @@ if ! (cd "$W/harness" && CARGO_TARGET_DIR=/tmp/mut-target cargo build --release 
   echo "$NAME HARNESS-BUILD-FAILED: $(grep -m1 -E '^error' "$W/build.log")"; rm -rf "$W"; exit 2
 fi
 cp /tmp/mut-target/release/pmv "$W/pmv"
+# second binary (library without debug assertions / overflow checks), as ./check builds it
+if (cd "$W/harness" && CARGO_TARGET_DIR=/tmp/mut-target cargo build --profile plain --offline >> "$W/build.log" 2>&1); then
+  cp /tmp/mut-target/plain/pmv "$W/pmv-plain"
+fi
 flock -u 9
 export VERIF_EVIDENCE_DIR=$W/evidence VERIF_REPLAY_DIR=$W/replays
 mkdir -p $VERIF_EVIDENCE_DIR
 for id in "$@"; do
-  out=$("$W/pmv" $id ${TIER:-quick} 2>&1); code=$?
+  out=""; pcode=0
+  if [ -x "$W/pmv-plain" ] && { [ "${TIER:-quick}" = thorough ] || { [ $id != C13 ] && [ $id != C14 ]; }; }; then
+    out=$(VERIF_BUILD=plain VERIF_EVIDENCE_DIR=$W/evidence-plain "$W/pmv-plain" $id ${TIER:-quick} 2>&1); pcode=$?
+  fi
+  out2=$("$W/pmv" $id ${TIER:-quick} 2>&1); code=$?
+  if [ $code -eq 0 ] && [ $pcode -ne 0 ]; then code=$pcode; out="[second build] $out"; else out="$out2"; fi
   key=$(echo "$out" | grep -m1 "violation key=" | cut -c1-200)
   echo "$NAME $id exit=$code $key"
 done
